@@ -136,7 +136,10 @@ pub fn gen_font(rng: &mut Rng, size_class: u64) -> (String, Features) {
     }
 
     // ---- characters
-    let n_chars = match size_class % 8 {
+    // one font in twenty-four is all extensible: every character carries a VARCHAR, the recipes come from a small pool
+    // (several characters share one), and half of these fonts have all 256 codes - the extensible table at its limit
+    let all_ext = rng.chance(1, 24);
+    let n_chars = match if all_ext && rng.coin() { 7 } else { size_class % 8 } {
         0 => rng.range_usize(0, 2),
         1 | 2 => rng.range_usize(2, 12),
         3 | 4 => rng.range_usize(8, 60),
@@ -199,15 +202,34 @@ pub fn gen_font(rng: &mut Rng, size_class: u64) -> (String, Features) {
         Ext,
     }
     let mut role = [Role::Plain; 256];
-    let has_lig = !actors.is_empty() && rng.chance(5, 6);
+    let has_lig = !all_ext && !actors.is_empty() && rng.chance(5, 6);
     for &c in &codes {
         role[c as usize] = match rng.below(10) {
+            _ if all_ext => Role::Ext,
             0..=4 if has_lig && (f.wild_ligs || actors.contains(&c)) => Role::Lig,
             5 if codes.len() > 1 => Role::List,
             6 => Role::Ext,
             _ => Role::Plain,
         };
     }
+    let recipe_pool: Vec<String> = if all_ext && !codes.is_empty() {
+        (0..rng.range_usize(1, 6))
+            .map(|_| {
+                let mut r = String::new();
+                for piece in ["TOP", "MID", "BOT"] {
+                    if rng.chance(1, 2) {
+                        let p = *rng.pick(&codes);
+                        r.push_str(&format!("      ({piece} {})\n", chr(rng, p)));
+                    }
+                }
+                let p = *rng.pick(&codes);
+                r.push_str(&format!("      (REP {})\n", chr(rng, p)));
+                r
+            })
+            .collect()
+    } else {
+        vec![]
+    };
 
     // ---- lig table
     if has_lig {
@@ -375,6 +397,12 @@ pub fn gen_font(rng: &mut Rng, size_class: u64) -> (String, Features) {
                     out.push_str(&format!("   (NEXTLARGER {})\n", chr(rng, d)));
                     f.next_larger += 1;
                 }
+            }
+            Role::Ext if !recipe_pool.is_empty() => {
+                out.push_str("   (VARCHAR\n");
+                out.push_str(rng.pick(&recipe_pool[..]).as_str());
+                out.push_str("      )\n");
+                f.varchar += 1;
             }
             Role::Ext => {
                 out.push_str("   (VARCHAR\n");
